@@ -46,7 +46,10 @@ man = {
              "(anchor vanished / unsupported construct), never reported as a violation. Two rules run with every check on the functions "
              "it analysed: a coroutine function of the package called without being awaited / scheduled (<id>.await) and an exception "
              "constructed but not raised (<id>.raise). Asserts are conditional raises to every engine unless the asserted condition is "
-             "proven from the path (lengths, integer ranges, classes).",
+             "proven from the path (lengths, integer ranges, classes). Before the rules run, three source-level pre-passes undo what routine "
+             "maintenance does to the anchors: consistent renames of private names (sa/names.py), newer syntax (sa/desugar.py), and moves of "
+             "definitions between modules / reordered or keyword-only parameters (sa/moves.py). A check may import another property's "
+             "obligations as premises (C06<-C04,C05,C07; C07<-C06; C08<-C04,C07; C10<-C20.e; C11<-C12.a; C13<-C14; C17<-C18; C19<-C06.d).",
     "not_applicable": na,
 }
 with open(os.path.join(os.path.dirname(os.path.abspath(__file__)), "MANIFEST.json"), "w") as fh:
